@@ -266,6 +266,8 @@ let exec (a : string array) (_input : int array ref) (bytes : string -> int arra
       let finishing = ref false in
       let abort = ref 0 in
       let prev_unused = ref true in
+      let done_all = ref true in
+      let atr = Buffer.create 64 in
       (* the unconsumed input as a shared list: a chunk that covers all of it costs nothing *)
       let suffix = ref (nlist_of_array input) in
       let rec drop k l = if k = 0 then l else (match l with [] -> [] | _ :: t -> drop (k - 1) t) in
@@ -302,11 +304,13 @@ let exec (a : string array) (_input : int array ref) (bytes : string -> int arra
                incr calls;
                last := st;
                th := fnv_step (fnv_step (fnv_step !th (st + 20000)) ic) oc;
-               if !calls <= 40 then Buffer.add_string tr (Printf.sprintf "%d/%d/%d/%d;" fl st ic oc);
+               if !calls <= 40 then begin
+                 Buffer.add_string tr (Printf.sprintf "%d/%d/%d/%d;" fl st ic oc);
+                 Buffer.add_string atr (Printf.sprintf "%d:%d;" !in_off (int_of_n cc'.c_adler)) end;
                if fl >= 1 && fl <= 3 && !prev_unused && ic = clen && oc < nout && Buffer.length marks < 400 then
                  Buffer.add_string marks (Printf.sprintf "%d:%d:%d;" fl !in_off (Buffer.length out));
                prev_unused := oc < nout;
-               if st = 1 || (st < 0 && not (stream && st = -5)) then begin why := "end"; raise Exit end;
+               if st = 1 || (st < 0 && not (stream && st = -5)) then begin why := "end"; done_all := (ic = clen); raise Exit end;
                if ic = 0 && oc = 0 then incr stall else stall := 0;
                if !stall > n + 2 then begin why := "stall"; raise Exit end)
         done
@@ -316,11 +320,12 @@ let exec (a : string array) (_input : int array ref) (bytes : string -> int arra
       else begin
         c := Some !cc;
         let o = Array.init (Buffer.length out) (fun i -> Char.code (Buffer.nth out i)) in
-        Some (Printf.sprintf "st=%d in=%d out=%d calls=%d why=%s viol=0 th=%016Lx ad=%d ub=%d marks=%s tr=%s full=%s"
-                !last !in_off (Array.length o) !calls !why !th (int_of_n !cc.c_adler)
+        Some (Printf.sprintf "st=%d in=%d out=%d calls=%d why=%s viol=0 dn=%d th=%016Lx ad=%d ub=%d marks=%s tr=%s atr=%s full=%s"
+                !last !in_off (Array.length o) !calls !why (if !done_all then 1 else 0) !th (int_of_n !cc.c_adler)
                 (int_of_n !cc.c_sbits)
                 (if Buffer.length marks = 0 then "-" else Buffer.contents marks)
-                (if Buffer.length tr = 0 then "-" else Buffer.contents tr) (hexs o))
+                (if Buffer.length tr = 0 then "-" else Buffer.contents tr)
+                (if Buffer.length atr = 0 then "-" else Buffer.contents atr) (hexs o))
       end
     end
   | "cvec" -> begin
